@@ -28,13 +28,17 @@ RULE = (
     "BYTES_LENGTH of every generated Python class == reference nbytes; (3) Python encode() of zero / all-ones / min / max / "
     "one-hot vectors == reference encoder. A unit with a bad use must be rejected with a ParserError, by the file itself and by "
     "every file importing it, while its repaired twin (bad use replaced by uint8 / literal) must be accepted and is then checked "
-    "like any valid unit. evaluations = judged uses + BYTES_LENGTH + encode comparisons + rejections. Non-trivial use: the used "
+    "like any valid unit. In half of the units without a bad use ONE slot is given a text of the class the statement leaves open "
+    "(the innermost scope declaring the first component lacks the rest of the dotted path - e.g. a FIELD named like an import, "
+    "followed by `name.T`): both readings (stop there / search outward) are computed and the compiler's outcome must be the outcome "
+    "of one of them, never a third definition; the unit is then judged like any other with the reading taken. evaluations = judged uses + BYTES_LENGTH + encode comparisons + rejections. Non-trivial use: the used "
     "simple name has >= 2 type/constant definitions reachable from the file; distinct by (unit digest, owner path, text)."
 )
 ASSUMPTIONS = [
-    "EXCLUDED BY RULE (counted): a dotted text whose first component is declared in an inner scope that lacks the rest of the "
-    "path, when stopping there and continuing outward give different outcomes (the statement does not say which); such draws are "
-    "replaced before the schema is written",
+    "a dotted text whose first component is declared in an inner scope that lacks the rest of the path, when stopping there and "
+    "continuing outward give different outcomes (the statement does not say which): at most ONE such use per unit is written and "
+    "judged against BOTH readings (labels ambig:*); all other draws of that class are replaced before the schema is written "
+    "(EXCLUDED BY RULE, counted)",
     "a scope declares a name whatever the member's kind; a wrong-kind hit is an expected rejection and is not judged further",
     "observations (2) and (3) go through generated Python and are skipped (label obs1_only:*) for units containing a recorded C10 "
     "shape: a type nested in a message of an imported file used from another file (D7), a two-hop import path (N3), or names "
@@ -47,7 +51,7 @@ REQUIRED_LABELS = [
     "path:simple", "path:dotted2", "path:dotted3", "site:depth1", "site:depth2", "site:depth3", "site:alias", "site:array_element",
     "use:capacity", "target:imported", "import:as", "import:proto_name", "import:two_hop", "target:nested_in_imported_message",
     "target:depth0", "target:depth1", "target:depth2", "shadow:inner_wins", "shadow:later_inner_definition_ignored",
-    "kind:enum", "kind:message", "kind:alias", "kind:const", "reject:undefined", "reject:wrongkind", "reject:defined_later",
+    "kind:enum", "kind:message", "kind:alias", "kind:const", "ambig:leaf_first_component", "ambig:scope_lacks_rest", "reject:undefined", "reject:wrongkind", "reject:defined_later",
     "reject:in_imported_file", "own_name_in_body", "obs:python", "obs:via_importer",
 ]
 
@@ -63,6 +67,7 @@ def describe(c: SH.Case) -> Any:
             {"at": ".".join(SH.definition_path(u.owner)[1]), "file": file_of(u.owner).filename, "text": u.text, "denotes": list(SH.definition_path(u.target)), "candidates": u.ncand}
             for u in c.uses
         ],
+        "ambiguous_use": None if c.ambig is None else {"at": ".".join(SH.definition_path(c.ambig.owner)[1]), "file": file_of(c.ambig.owner).filename, "text": c.ambig.text, "readings": [r[0] if r[0] != "ok" else list(SH.definition_path(r[1])) for r in c.ambig.allowed]},
         "bad_use": None if c.bad is None else {"at": ".".join(SH.definition_path(c.bad.owner)[1]), "file": file_of(c.bad.owner).filename, "text": c.bad.text, "expected": c.bad.outcome},
     }
 
@@ -185,8 +190,67 @@ def run_case(c: SH.Case, stats: Stats) -> None:
         check_rejection(c, stats)
         with SH.Repaired(c.bad):
             check_valid(c, stats, twin=True)
+    elif c.ambig is not None:
+        check_ambiguous(c, stats)
     else:
         check_valid(c, stats, twin=False)
+
+
+def check_ambiguous(c: SH.Case, stats: Stats) -> None:
+    """ONE use of the class the statement leaves open (the innermost scope declaring the first component lacks the rest of the
+    dotted path): whichever reading the compiler takes, it must be ONE of the two - rejection where a reading rejects, or exactly
+    the definition a reading selects; never a third definition."""
+    u = c.ambig
+    assert u is not None
+    f = file_of(u.owner)
+    at = f"{f.filename}:{'.'.join(SH.definition_path(u.owner)[1])}"
+    texts = render_bp.render_unit(c.unit)
+    for lab in u.labels:
+        stats.count(lab)
+    rejecting = [r for r in u.allowed if r[0] != "ok"]
+    oks = [r for r in u.allowed if r[0] == "ok"]
+    readings = [("rejected (" + r[0] + ")") if r[0] != "ok" else str(SH.definition_path(r[1])) for r in u.allowed]
+    taken = None
+    with gen.Compiled(c.unit, texts=texts) as cu:
+        stats.evaluations += 1
+        try:
+            proto = cu.parse(f)
+        except bpapi.ParserError:
+            if not rejecting:
+                raise Violation(f"{at}: `{u.text}` denotes a definition under both readings of the rule ({readings}), but {f.filename} was rejected", signature="ambig-rejected")
+            proto = None
+        except Exception as e:
+            raise Violation(f"{at}: `{u.text}`: parsing {f.filename} raised {type(e).__name__}: {e}", signature=f"ambig-exc:{type(e).__name__}")
+        if proto is not None:
+            node = ast_used_type(proto, u)
+            for r in oks:
+                tgt = r[1]
+                if u.kind == "cap":
+                    if type(node).__name__ == "Array" and node.cap == tgt.value:
+                        taken = tgt
+                elif type(node).__name__ == KIND[type(tgt)] and ast_identity(node) == SH.definition_path(tgt) and node.nbits() == ref.nbits(tgt):
+                    taken = tgt
+            if taken is None:
+                got = getattr(node, "cap", None) if u.kind == "cap" else (ast_identity(node) if hasattr(node, "scope_stack") else repr(node))
+                raise Violation(
+                    f"{at}: `{u.text}`: the innermost scope declaring `{u.text.split('.')[0]}` lacks the rest of the path; stopping there / searching outward give {readings}; the parsed schema uses {got}, which is neither",
+                    signature="ambig-third",
+                )
+    if taken is None:
+        stats.count("ambig:rejected")
+        with SH.Repaired(u):
+            check_valid(c, stats, twin=True)
+        return
+    stats.count("ambig:outward" if (u.allowed[1][0] == "ok" and u.allowed[1][1] is taken) else "ambig:innermost")
+    u.outcome, u.target = "ok", taken
+    u.labels = SH.use_labels(u, SH.site_of(u.owner))
+    if u.kind == "type":
+        u.holder.target = taken
+    else:
+        u.holder.cap, u.holder.cap_const = taken.value, taken
+    if not any(x is u for x in c.uses):
+        c.uses.append(u)
+    check_valid(c, stats, twin=False)
 
 
 def check_valid(c: SH.Case, stats: Stats, twin: bool) -> None:
